@@ -68,14 +68,26 @@ fn name_failure(t: &TD, n: &str) -> Option<String> {
             }
             // accessor reports back
             let got = real.get_atom_name();
-            let want_name = match want.k.shape() {
-                Shape::AtomNamed => Some(want.name.clone()),
-                Shape::AtomPlaceholder => Some(String::new()),
-                Shape::AtomInterval => Some(want.num.to_string()),
-                _ => None,
-            };
-            if got != want_name {
-                return Some(format!("get_atom_name after set_atom_name({:?}) = {:?}, expected {:?}", n, got, want_name));
+            match want.k.shape() {
+                // the five named kinds report the new name verbatim
+                Shape::AtomNamed => {
+                    if got.as_deref() != Some(&want.name[..]) {
+                        return Some(format!("get_atom_name after set_atom_name({:?}) = {:?}, expected {:?}", n, got, want.name));
+                    }
+                }
+                // an interval reports its value (any decimal spelling of it)
+                Shape::AtomInterval => {
+                    let v = got.as_deref().and_then(|g| g.strip_prefix('+').unwrap_or(g).parse::<usize>().ok());
+                    if v != Some(want.num) {
+                        return Some(format!("get_atom_name after set_atom_name({:?}) = {:?}, expected the value {}", n, got, want.num));
+                    }
+                }
+                // the placeholder has no name; what the accessor shows for it is not specified
+                _ => {
+                    if got.is_none() {
+                        return Some("get_atom_name is None for an atom".to_string());
+                    }
+                }
             }
             None
         }
